@@ -340,7 +340,18 @@ def c0110(ctx):
 def closure_of_call(ctx, f, t):
     """The closure body passed (as a generic argument) to the call whose terminator is t."""
     mm = re.search(r"Closure\(DefId\([^)]*::(\{closure#\d+\})\)", str(t.get("ga")))
-    return ctx.prog.fns.get(f.key + "::" + mm.group(1)) if mm else None
+    if not mm:
+        return None
+    g = ctx.prog.fns.get(f.key + "::" + mm.group(1))
+    if g is None:
+        # the call sits in a helper that was looked through: the closure is one of that helper's (name the enclosing item from the DefId)
+        m2 = re.search(r"Closure\(DefId\([^~]*~ [^:]+(?:\[[0-9a-f]+\])?::(.*?::\{closure#\d+\})\)", str(t.get("ga")))
+        tail = m2.group(1).rsplit("::", 2)[-2:] if m2 else None       # [enclosing fn name, {closure#n}]
+        for c in ctx.prog.closures_of(f):
+            if tail and c.key.endswith("::".join(tail)) or (not tail and c.key.endswith(mm.group(1))):
+                g = c
+                break
+    return g
 
 
 def reads_timestamp(g):
